@@ -8,8 +8,6 @@ Ltac Zify.zify_post_hook ::= Z.to_euclidean_division_equations.
 Section Once.
   Variable scale : N -> Z.
   Variable sun : Z -> bool -> option Z.
-  Variable cron_next : cronx -> Z -> Z.
-  Variable lu ul : Z -> Z.
   Variable cfg : deviations.
   Hypothesis Hmd : d_once_md_this_year cfg = false.
   Hypothesis Hsu : d_su_coincidence cfg = false.
